@@ -94,7 +94,7 @@ class ToExec:
     def __init__(self, loop: steploop.StepLoop, *, limit: int = 1, to: Optional[dict] = None,
                  body: str = "none", expect100: bool = False, thr: float = 5.0,
                  big_chunk: bool = False, chunked_resp: bool = True, offset: float = 0.0,
-                 cutsel: int = 0, horizon: float = HORIZON) -> None:
+                 cutsel: int = 0, horizon: float = HORIZON, readn: int = 0, retry: bool = False) -> None:
         import aiohttp
         from aiohttp import ClientTimeout
 
@@ -102,7 +102,14 @@ class ToExec:
         self.loop = loop
         self.params = dict(limit=limit, to=dict(to or {}), body=body, expect100=expect100, thr=thr,
                            big_chunk=big_chunk, chunked_resp=chunked_resp, offset=offset, cutsel=cutsel,
-                           horizon=horizon)
+                           horizon=horizon, readn=readn, retry=retry)
+        # readn > 0: the victim consumes the body with content.read(readn) (the buffer is drained in
+        #            parts, reading resumes while data is still buffered) instead of response.read()
+        # retry:     when the victim's call fails its caller at once - in the same task step, from the
+        #            exception handler - issues another request "v2" (eagerly started task, no timeouts)
+        self.readn = readn
+        self.retry = retry
+        self.retry_started = False
         loop._thread_id = threading.get_ident()       # is_running() -> True: eager tasks start eagerly (3.12)
         loop._vtime = offset
         self.limit = limit
@@ -124,7 +131,7 @@ class ToExec:
         # bound that is "configured" is what the public ClientTimeout object says
         self.eff = {"total": ct.total or 0.0, "connect": ct.connect or 0.0,
                     "sock_connect": ct.sock_connect or 0.0, "sock_read": ct.sock_read or 0.0}
-        self.reqs: Dict[str, Req] = {"v": Req("v"), "b": Req("b")}
+        self.reqs: Dict[str, Req] = {"v": Req("v"), "b": Req("b"), "v2": Req("v2")}
         self.events: List[dict] = []
         self.fault_injected = False
         self.pause_next_conn_of: Optional[str] = None
@@ -162,7 +169,21 @@ class ToExec:
         try:
             r = await self.kit.session.request(method, f"http://host.test/{name}", **kw)
             rq.got_response = True
-            data = await r.read()
+            if name == "v" and self.readn > 0:
+                parts = []
+                try:
+                    while True:
+                        chunk = await r.content.read(self.readn)
+                        if not chunk:
+                            break
+                        parts.append(chunk)
+                except BaseException:
+                    r.close()          # what `async with response` / response.read() do on failure
+                    raise
+                data = b"".join(parts)
+                r.release()
+            else:
+                data = await r.read()
             want = response_bytes(rq.marker, self.chunked_resp, self.big_chunk and name == "v")["body"]
             rq.body_ok = (data == want and r.headers.get("X-Mark") == rq.marker)
             rq.status = "ok" if rq.body_ok else "error"
@@ -176,14 +197,36 @@ class ToExec:
             rq.status = "timeout"
             rq.exc = type(e).__name__
             rq.exc_mro = [c.__name__ for c in type(e).__mro__]
+            rq.t_end = self.loop.time()
+            if name == "v" and self.retry:
+                self._spawn_retry()
         except Exception as e:  # noqa: BLE001
             rq.status = "error"
             rq.exc = type(e).__name__
             rq.exc_mro = [c.__name__ for c in type(e).__mro__]
-        finally:
             rq.t_end = self.loop.time()
+            if name == "v" and self.retry:
+                self._spawn_retry()
+        finally:
+            if rq.t_end < 0:
+                rq.t_end = self.loop.time()
             held = [pc.idx for pc in self.kit.conns if pc.owner == name]
             rq.conn_at_end = held[0] if held else None
+
+    def _spawn_retry(self) -> None:
+        """Retry-on-failure by the victim's caller: a new request started eagerly (its first step runs
+        here, inside the victim's exception handler, before anything the failure woke up)."""
+        self.retry_started = True
+        rq = self.reqs["v2"]
+        rq.status = "pending"
+        rq.t_start = self.loop.time()
+        prev = self.kit.current
+        self.kit.current = "v2"
+        try:
+            t = asyncio.Task(self._go("v2"), loop=self.loop, eager_start=True)
+        finally:
+            self.kit.current = prev
+        self.kit.tasks["v2"] = t
 
     def start(self, name: str) -> None:
         if name not in self.reqs:
@@ -782,14 +825,15 @@ def consts_for(mc: dict, scn: dict) -> dict:
     return c
 
 
-def exec_for(loop: steploop.StepLoop, mc: dict, cutsel: int = 0, body_variant: int = 0) -> ToExec:
+def exec_for(loop: steploop.StepLoop, mc: dict, cutsel: int = 0, body_variant: int = 0, readn: int = 0,
+             retry: bool = False) -> ToExec:
     body = {"none": "none", "small": "small", "block": ("big", "chunked")[body_variant % 2]}[mc["Body"]]
     return ToExec(loop, limit=mc["Limit"],
                   to={"total": mc["TOtotal"] / 2, "connect": mc["TOconnect"] / 2,
                       "sock_connect": mc["TOsockc"] / 2, "sock_read": mc["TOread"] / 2},
                   body=body, expect100=mc["Expect100"], thr=mc["Thr"] / 2, big_chunk=mc["BigChunk"],
                   chunked_resp=(cutsel % 2 == 0) or mc["BigChunk"], offset=mc["Offset"] / 2, cutsel=cutsel,
-                  horizon=mc["Horizon"] / 2)
+                  horizon=mc["Horizon"] / 2, readn=readn, retry=retry)
 
 
 def model_phase(info: dict, q: str) -> str:
@@ -800,8 +844,8 @@ def model_phase(info: dict, q: str) -> str:
 
 
 def replay_path(ctx: Ctx, loop: steploop.StepLoop, path: dict, mc: dict, cutsel: int = 0,
-                body_variant: int = 0, src: str = "tlc-scenario") -> dict:
-    x = exec_for(loop, consts_for(mc, path["scn"]), cutsel, body_variant)
+                body_variant: int = 0, src: str = "tlc-scenario", readn: int = 0, retry: bool = False) -> dict:
+    x = exec_for(loop, consts_for(mc, path["scn"]), cutsel, body_variant, readn=readn, retry=retry)
     drift = None
     for (label, before, after) in path["steps"]:
         act, args = parse_action(label)
@@ -849,6 +893,9 @@ def replay_path(ctx: Ctx, loop: steploop.StepLoop, path: dict, mc: dict, cutsel:
         if any(model_phase(after, q) != (o["ph"][q] if o["st"][q] == "pending" else o["st"][q]) for q in ("v", "b")):
             drift = f"state:{act}:{after['pc'].get('v')}/{after['pc'].get('b')}:{o['ph']['v']}/{o['ph']['b']}"
             break
+        if x.retry_started:
+            break      # the caller's immediate retry is a third party the model does not have: the rest
+                       # of the execution (finish()) is judged by the monitor only
     if drift:
         ctx.drift(drift)
     x.finish()
@@ -916,7 +963,8 @@ def random_exec(ctx: Ctx, loop: steploop.StepLoop, rng: Any) -> dict:
     big_chunk = rng.random() < 0.25
     x = ToExec(loop, limit=limit, to=to, body=body, expect100=expect100, thr=rng.choice([2.0, 5.0]),
                big_chunk=big_chunk, chunked_resp=big_chunk or rng.random() < 0.6,
-               offset=rng.choice([0.0, 0.25, 0.5, 0.9]), cutsel=rng.randint(0, 6), horizon=20.0)
+               offset=rng.choice([0.0, 0.25, 0.5, 0.9]), cutsel=rng.randint(0, 6), horizon=20.0,
+               readn=rng.choice([0, 0, 7, 40, 100, 250]), retry=rng.random() < 0.4)
     allow_cancel = rng.random() < 0.6
     allow_fault = rng.random() < 0.08
     stall_v = rng.random() < 0.7        # the victim's environment tends to stall
@@ -929,7 +977,7 @@ def random_exec(ctx: Ctx, loop: steploop.StepLoop, rng: Any) -> dict:
             acts += [("step", None)] * 8
         if any(c.pending for c in x.kit.dns_calls):
             acts += [("dns", None)] * (1 if stall_v else 3)
-        for n in ("v", "b"):
+        for n in ("v", "b", "v2"):
             w = 1 if (n == "v" and stall_v) else 4
             if any(c.owner == n and c.pending for c in x.kit.sock_calls):
                 acts += [("sock", n)] * w
@@ -938,7 +986,7 @@ def random_exec(ctx: Ctx, loop: steploop.StepLoop, rng: Any) -> dict:
             if pc is not None and rq.status == "pending" and pc.open:
                 if rq.t_written >= 0:
                     acts += [("feed", n)] * w
-                    if n == "b":
+                    if n != "v":
                         acts += [("all", n)] * 3
                 elif n == "v" and expect100 and "cont" not in rq.fed_parts:
                     acts += [("cont", n)] * 2
@@ -997,7 +1045,7 @@ def dedupe(traces: List[dict]) -> List[dict]:
     out = []
     for t in traces:
         pr = t.get("params", {})
-        k = json.dumps([t["cfg"], pr.get("body"), pr.get("chunked_resp"), pr.get("cutsel"),
+        k = json.dumps([t["cfg"], pr.get("body"), pr.get("chunked_resp"), pr.get("cutsel"), pr.get("readn"), pr.get("retry"),
                         [(e["ev"], e["who"], e["part"], e["obs"]["t"]) for e in t["events"]]])
         if k not in seen:
             seen.add(k)
@@ -1126,6 +1174,14 @@ def run(ctx: Ctx) -> None:
                 variants += [(0, 1)]
             for (cut, bv) in variants:
                 traces.append(replay_path(ctx, loop, p, mc, cutsel=cut, body_variant=bv))
+            if mc["BigChunk"]:
+                # the consumer drains the buffer in parts: reading resumes with data still buffered
+                for n in (100, 40):
+                    traces.append(replay_path(ctx, loop, p, mc, cutsel=n % 7, readn=n))
+            if any(a["outcome"].get("v") == "timeout" for _, _, a in p["steps"]):
+                # the victim's caller retries at once from its exception handler (third party)
+                traces.append(replay_path(ctx, loop, p, mc, cutsel=len(labels) % 7, retry=True,
+                                          readn=100 if mc["BigChunk"] else 0))
         ctx.log(f"scripted {name}: {res.distinct} states, {len(scns)} scenarios, {len(paths)} paths, "
                 f"{len(traces) - n0} replays; drift so far: {dict(ctx.drifts)}")
     ctx.extra["scenarios_replayed"] = nscn
@@ -1147,7 +1203,8 @@ def run(ctx: Ctx) -> None:
                                       num=ctx.pick(60, 600), depth=40, seed=ctx.seed, timeout=600)
         for k, b in enumerate(behs):
             sims.append(replay_path(ctx, loop, path_from_behaviour(b), mc, cutsel=k % 7, body_variant=k % 2,
-                                    src="tlc-sim"))
+                                    src="tlc-sim", readn=(0, 100, 40)[k % 3] if mc["BigChunk"] else 0,
+                                    retry=(k % 2 == 1)))
     ctx.log(f"replayed {len(sims)} simulated behaviours; drift: {dict(ctx.drifts)}")
     sims = dedupe(sims)
     for i in range(0, len(sims), 1500):
@@ -1184,7 +1241,8 @@ def reexecute(loop: steploop.StepLoop, t: dict) -> dict:
         if ev in ("served", "probe", "final") or (ev == "start" and who.startswith("f")):
             break
         if ev == "start":
-            x.start(who)
+            if who != "v2":
+                x.start(who)
         elif ev == "step":
             if who:
                 x.step()
